@@ -59,10 +59,13 @@ CLAIMED = {
    text=("Lean theorems: DFXP div language = own xml:lang, else the document's, else the configured default (dfxp_lang_fallback); the languages of a document are "
          "exactly the resolved div languages, each once, in first-appearance order (dfxp_languages_first_appearance, invariant over the ordered-dict fold); "
          "for sorted non-overlapping cues the SAMI SYNC blocks of a language come out in non-decreasing time order (primary_syncs_sorted, via C02's sync-plan "
-         "theorem); after the SAMI writer's loop over the languages the stylesheet contains the rule 'lang: <code>;' of EVERY language, whatever the codes "
+         "theorem), and for ANY number of languages the blocks of the whole document stay in non-decreasing time order whatever the cues of the secondary "
+         "languages are - each of their blocks is looked up or inserted in place (plan_sorted: the scan for the last earlier block, insertion keeps a sorted list "
+         "sorted) - and every paragraph carrying a cue's text sits in a block that starts at that cue's start millisecond (paragraphs_in_own_block); "
+         "after the SAMI writer's loop over the languages the stylesheet contains the rule 'lang: <code>;' of EVERY language, whatever the codes "
          "(stylesheet_declares_every_language; the searched text is regenerated from the source; the pre-repair test is refuted by "
-         "stylesheet_old_test_counterexample). The multi-language SAMI sync plan (lookup of an existing block, insertion after the last earlier / before the first later one) is an "
-         "executable model compared with the writer for 1-4 languages; DFXP/SAMI outputs are parsed independently (one div per language in order with its "
+         "stylesheet_old_test_counterexample). The multi-language SAMI sync plan (lookup of an existing block, insertion after the last earlier / before the first later one) is the "
+         "executable model these theorems are about, compared with the writer for 1-4 languages; DFXP/SAMI outputs are parsed independently (one div per language in order with its "
          "cues; paragraphs in the block of their start time) and read back; force=, WebVTT lang=, reader lang= and the div-language fallback incl. "
          "PYCAPTION_DEFAULT_LANG are exercised (sub-process)."),
    ref="§3 C14", technique="Lean 4 proof (ordered-dict invariant, sortedness induction) + sync-plan correspondence + independent parsers + sub-process configuration",
